@@ -27,7 +27,7 @@ def run(tier, seed):
     import formulas.tokens.operator as TO, formulas.tokens.parenthesis as TP, formulas.tokens.function as TF
     ck.encode(FP.Parser.ast, T.Token.__init__, TD.Number.compile, TD.Operand.ast, TP.Parenthesis.ast, TO.Operator.ast,
               TO.Operator.update_name, TO.Separator.ast, TF.Function.ast, TF.Array.ast, FB.AstBuilder.append)
-    ck.assume('token spellings are chosen by boolean selector variables from a 20-word vocabulary (solver-driven concretisation); regexes run concretely',
+    ck.assume('token spellings are chosen by boolean selector variables from a 22-word vocabulary (solver-driven concretisation); regexes run concretely',
               'numeric literals: language of the <name> group read from the live Number._re (atomic groups over-approximated, sound for inclusion), converters eval/int/float replaced by their documented grammars as z3 regexes, case transformations tracked symbolically; length <= 12',
               'rejection classes decided syntactically on the token list by the harness (spec in harness/c18_soup.py: must_reject)')
     ck.out_of_scope('arbitrary printable strings (tokenisation of a symbolic string needs regex capture semantics)',
@@ -49,19 +49,19 @@ def run(tier, seed):
         def add(prefix, only):
             s = src.replace('__PREFIX__', repr(tuple(prefix))).replace('__VALID__', 'None')
             h = Harness(ck, 'c18_soup_' + ('_'.join(map(str, prefix)) or 'e'), s); hs.append(h)
-            batch.add(h, T_, only=only, bounds='token sequences %s + %d free tokens over the 20-word vocabulary' % (
+            batch.add(h, T_, only=only, bounds='token sequences %s + %d free tokens over the 22-word vocabulary (incl. tab and line break)' % (
                 list(prefix), 1 if only == ['soup1_ok'] else 2))
         add((), ['soup1_ok', 'soup2_ok', 'valid_ok'])
-        for a in range(20):
+        for a in range(22):
             add((a,), ['soup2_ok'])
         if not quick:
-            for a in range(20):
-                for b in range(20):
+            for a in range(22):
+                for b in range(22):
                     add((a, b), ['soup2_ok'])
         for f in range(6):
             s = src.replace('__PREFIX__', '()').replace('__VALID__', 'None').replace('pre: 0 <= f < len(VALID)', 'pre: f == %d' % f)
             if quick:
-                s = s.replace('pre: not (k2 or k3)', 'pre: not (k2 or k3)\n    pre: sel(t0, t1, t2, t3, t4) in (0, 1, 4, 7, 13, 14, 15, 17, 18, 19) or sel(k0, k1) == 0')
+                s = s.replace('pre: not (k2 or k3)', 'pre: not (k2 or k3)\n    pre: sel(t0, t1, t2, t3, t4) in (0, 1, 4, 7, 13, 14, 15, 17, 18, 19, 20) or sel(k0, k1) == 0')
             h = Harness(ck, 'c18_edit_f%d' % f, s); hs.append(h)
             batch.add(h, T_, only=['edit_ok'], bounds='every single-token deletion / insertion / replacement of valid formula #%d%s' % (f, ' (10-token subset)' if quick else ''))
         batch.run()
